@@ -101,6 +101,9 @@ def parseOp (ts : List String) : Option Op :=
   | ["bref", k] => do some (.bref (← nat? k))
   | ["bunref", k] => do some (.bunref (← nat? k))
   | ["btext", k, l, c, h] => do some (.btext (← nat? k) (← int? l) (← int? c) (← hexBytes? h))
+  -- the same text through tickit_renderbuffer_textf_at("%s") and through goto + tickit_renderbuffer_textn
+  | ["btextf", k, l, c, h] => do some (.btext (← nat? k) (← int? l) (← int? c) (← hexBytes? h))
+  | ["btextc", k, l, c, h] => do some (.btext (← nat? k) (← int? l) (← int? c) (← hexBytes? h))
   | ["berase", k, l, c, n] => do some (.berase (← nat? k) (← int? l) (← int? c) (← int? n))
   | ["bskip", k, l, c, n] => do some (.bskip (← nat? k) (← int? l) (← int? c) (← int? n))
   | ["bchar", k, l, c, cp] => do some (.bchar (← nat? k) (← int? l) (← int? c) (← int? cp))
